@@ -28,12 +28,13 @@ Field(op) == CASE op = "SetPol" -> "pol" [] op = "SetShadow" -> "shadow" [] op =
                [] op = "SetHbs" -> "hbs" [] op = "SetHms" -> "hms" [] op = "SetArea" -> "area"
 
 \* the specification's successor for one logged call
-Succ(s, e) == IF e.op \in Offers(T.model) /\ Accepts(T.model, e.op, e.arg)
+\* ("Plot" is the plot helper: a query - it may draw or raise, the parameters stay as they are)
+Succ(s, e) == IF e.op # "Plot" /\ e.op \in Offers(T.model) /\ Accepts(T.model, e.op, e.arg)
                 THEN [s EXCEPT ![Field(e.op)] = e.arg] ELSE s
 ExpOut(e)  == IF e.op \in Offers(T.model) /\ Accepts(T.model, e.op, e.arg) THEN "ok" ELSE "raise"
 
 FirstBad(e, s2) ==
-  IF e.out # ExpOut(e) THEN <<tid, i + 1, "outcome">>
+  IF e.op # "Plot" /\ e.out # ExpOut(e) THEN <<tid, i + 1, "outcome">>
   ELSE IF \E f \in DOMAIN e.post : e.post[f] # s2[f]
     THEN <<tid, i + 1, "parameter " \o (CHOOSE f \in DOMAIN e.post : e.post[f] # s2[f])>>
   ELSE IF \E p \in DOMAIN e.preds : e.preds[p] # TRUE
